@@ -3,6 +3,7 @@ package main
 import (
 	"fmt"
 	"math/rand"
+	"regexp"
 	"strings"
 )
 
@@ -18,6 +19,8 @@ type cnode struct {
 	k    string
 	kids []*cnode
 	idx  int
+	// kinds of the neighbours (previous / next sibling, or the parent at an edge)
+	leftK, rightK string
 }
 
 func buildForest(nodes []ANode) []*cnode {
@@ -138,7 +141,41 @@ func (g *docGen) hideAttr() string {
 	return g.pick(hideMechanisms...)
 }
 
+// blockish: kinds rendered as block-level boxes - text next to them is a separate
+// line in the source whatever the white space, so a bare (unpadded) text is safe there.
+var blockish = map[string]bool{"P": true, "DIV": true, "H": true, "UL": true, "OL": true, "LI": true, "BQ": true, "PRE": true,
+	"DT": true, "LT": true, "FIG": true, "FIGL": true, "TW": true, "LNK": true, "MRK": true, "ROOT": true}
+
+// padded renders the words of a text node, without the surrounding space on a side
+// that faces a block-level neighbour (or the edge of a block-level parent): there the
+// words are separated in the source by layout alone, and must stay separated in the
+// output. Towards inline neighbours the text is always padded, so no source word
+// spans two text nodes.
+func (g *docGen) padded(n *cnode, w string) string {
+	left, right := " ", " "
+	if g.rng.Intn(2) == 0 && blockish[n.leftK] {
+		left = ""
+	}
+	if g.rng.Intn(2) == 0 && blockish[n.rightK] {
+		right = ""
+	}
+	return left + w + right
+}
+
+func (g *docGen) linkKids(kids []*cnode, parentK string) {
+	for i, c := range kids {
+		c.leftK, c.rightK = parentK, parentK
+		if i > 0 {
+			c.leftK = kids[i-1].k
+		}
+		if i+1 < len(kids) {
+			c.rightK = kids[i+1].k
+		}
+	}
+}
+
 func (g *docGen) kidsHTML(n *cnode) string {
+	g.linkKids(n.kids, n.k)
 	var sb strings.Builder
 	for _, c := range n.kids {
 		sb.WriteString(g.render(c))
@@ -170,9 +207,9 @@ func (g *docGen) wrap(tag, attrs, inner string) string {
 func (g *docGen) render(n *cnode) string {
 	switch n.k {
 	case "T":
-		return " " + g.words(g.long) + " "
+		return g.padded(n, g.words(g.long))
 	case "t":
-		return " " + g.words(g.short) + " "
+		return g.padded(n, g.words(g.short))
 	case "W":
 		return g.pick(" ", "\n", "  \t ")
 	case "BR":
@@ -253,7 +290,7 @@ func (g *docGen) render(n *cnode) string {
 			return fmt.Sprintf(`<img src="/i/m%d.png" srcset="/i/m%d-2x.png 2x, /i/m%d-3x.png 3x"%s>`, m, m, m, g.noiseAttrs())
 		case "picture":
 			// pictures may carry more than sources and the image: hidden fallbacks, comments, scripts
-			junk := g.pick("", "", `<span hidden>`+g.words(2)+`</span>`, `<span style="display:none">`+g.words(2)+`</span>`,
+			junk := g.pick("", "", g.words(2), `<span hidden>`+g.words(2)+`</span>`, `<span style="display:none">`+g.words(2)+`</span>`,
 				`<!-- `+g.words(2)+` -->`, `<script>var `+g.words(1)+`;</script>`, `<noscript>`+g.words(2)+`</noscript>`)
 			return fmt.Sprintf(`<picture%s><source srcset="/i/m%d-s.webp"%s>%s<img src="/i/m%d.png"%s></picture>`, g.noiseAttrs(), m, g.noiseAttrs(), junk, m, g.noiseAttrs())
 		case "lazy":
@@ -381,6 +418,7 @@ func (g *docGen) para(n int) string { return "<p>" + g.words(n) + "</p>" }
 // page wraps the generated forest into one of several page skeletons.
 func (g *docGen) page(forest []*cnode, place string) string {
 	var body strings.Builder
+	g.linkKids(forest, "ROOT")
 	for _, n := range forest {
 		body.WriteString(g.render(n))
 	}
@@ -419,7 +457,10 @@ func (g *docGen) page(forest []*cnode, place string) string {
 		sb.WriteString(g.linkCluster(3))
 	}
 	sb.WriteString("</body></html>")
-	return sb.String()
+	// two bare texts next to each other must not form one word already in the source
+	return rxGluedTokens.ReplaceAllString(rxGluedTokens.ReplaceAllString(sb.String(), "$1 $2"), "$1 $2")
 }
+
+var rxGluedTokens = regexp.MustCompile(`(zq\d+)(zq\d)`)
 
 var docPlaces = []string{"mid", "solo", "lead", "tail", "chrome"}
